@@ -71,6 +71,8 @@ def main():
         sys.exit(2)
     target = os.environ.get("FSV_TARGET") or "/tmp/fsv-sens-target"
     env = dict(os.environ, FSV_REPO=repo, FSV_TARGET=target)
+    if os.environ.get("FSV_SENS_SEARCH_ONLY"):
+        env["FSV_SKIP_PINNED"] = "1"     # verdict of the generated search and the enumerations alone
     want = set(sys.argv[1:])
     results = []
     for mid, prop, f, old, new, what in MUTANTS:
